@@ -4,9 +4,51 @@ from props.common import run_property
 import props.msg  # noqa
 from props.C01 import make_cases as mc, BOUNDS as B1
 
+from mirsym.steplib import judge
+from mirsym.post import And, Or, Not, Iff, Implies
+from mirsym.values import mkstr
+from props.oracles import *
+
 PROP = 'C10'
+
+@judge('away')
+def j_away(ctx):
+    """AWAY sets (replaces) resp. clears the away text that PRIVMSG senders are answered with"""
+    r = ref_parse(ctx.line.encode())
+    if r[1].upper() != b'AWAY' or ctx.outcome != 'ok': return []
+    pre, post, a, M = ctx.pre, ctx.post, ctx.actor, ctx.M
+    srv = server(ctx)
+    text = r[2][0].decode() if r[2] else None          # an empty text is a text (this server marks the user away with an empty message)
+    ua = post.users[a]
+    obs = []
+    if text is not None:
+        obs.append(('away:set', 'AWAY <text>: the user is away afterwards', ua['away']))
+        obs.append(('away:text', 'AWAY <text>: the stored away text is the new text (also when the user was away already)', M.values_equal(ua['away_val'].fields[0], mkstr(text))))
+        obs.append(('away:reply', 'AWAY <text> is answered with 306', len([l for l in ctx.written if numeric_pred(srv, 306, a)(l)]) == 1 and len(ctx.written) == 1))
+    else:
+        obs.append(('away:clear', 'AWAY without text: the user is no longer away', Not(ua['away'])))
+        obs.append(('away:reply', 'AWAY without text is answered with 305', len([l for l in ctx.written if numeric_pred(srv, 305, a)(l)]) == 1 and len(ctx.written) == 1))
+    obs += frame_obligations(ctx, lambda k: k[0] == 'away' and k[1] == a, 'away:frame')
+    for n in ctx.w.spec.nicks:
+        if n != a: obs += queue_silent(ctx, [n], 'away:others')
+    return obs
+
 def make_cases(tier, profile):
-    return mc(tier, profile, judges=('no_panic', 'msg_restrict'))
+    cases = mc(tier, profile, judges=('no_panic', 'msg_restrict'))
+    aspec = dict(sym_caps=False, sym_max_joins=False, sym_topic=False, sym_key=False, sym_limit=False, sym_lists=False, sym_flags=False, sym_ranks=False, sym_invites=False,
+                 sym_away=True, plain_chans=['#x', '&y'], nicks=['alice', 'bob', 'carol'])
+    for l in ['AWAY :second text', 'AWAY :x', 'AWAY', 'AWAY :']:
+        cases.append(dict(name=l, line=l, judges=['no_panic', 'inv', 'away'], spec=aspec))
+    # ... and the text a PRIVMSG sender is told is the current one
+    cases.append(dict(name='AWAY :second text; PRIVMSG bob :hi', actor='alice', prelude=[('bob', 'AWAY :second text')], line='PRIVMSG bob :hi', judges=['no_panic', 'away_reply'], spec=aspec))
+    return cases
+
+@judge('away_reply')
+def j_away_reply(ctx):
+    srv = server(ctx); a = ctx.actor
+    k = [l for l in ctx.written if numeric_pred(srv, 301, a, 'bob')(l)]
+    good = len(k) == 1 and is_concrete(k[0]) and ref_parse(k[0])[2][-1] == b'second text'
+    return [('away:301', 'PRIVMSG to an away user is answered with its current away text', good)]
 
 BOUNDS = dict(B1)
 if __name__ == '__main__':
